@@ -334,6 +334,78 @@ example : validatorSet [5, 3, 5, 9, 3] = [3, 5, 9] := by
   have h : sortAddrs [5, 3, 5, 9, 3] = [3, 3, 5, 5, 9] := sortAddrs_eq_of_sorted (by decide) (by decide)
   simp [validatorSet, h, dedupSorted]
 
+
+/-! ### replicas: discarded executions do not influence later committed results -/
+
+/-- FRAME LEMMA: a discarded execution is the identity on the node (its committed state is all there is) -/
+theorem discard_frame {σ β ρ : Type} (m : Machine σ β ρ) (n : Node σ) (b : β) : m.discard n b = n := rfl
+
+/-- a fresh fork has the committed state of its origin -/
+theorem fork_committed {σ : Type} (n : Node σ) : (Machine.forkOf n).committed = n.committed := rfl
+
+/-- a block's outcome is a function of (committed state, block): nodes with equal committed state agree on the new
+    committed state and on everything they report -/
+theorem exec_congr {σ β ρ : Type} (m : Machine σ β ρ) (n₁ n₂ : Node σ) (b : β) (h : n₁.committed = n₂.committed) :
+    (m.exec n₁ b).1.committed = (m.exec n₂ b).1.committed ∧ (m.exec n₁ b).2 = (m.exec n₂ b).2 := by
+  unfold Machine.exec
+  simp [h]
+
+/-- every replica operation preserves "the two nodes have the same committed state" and a block reports equal results -/
+theorem repStep_agree {σ β ρ : Type} (m : Machine σ β ρ) (p : Node σ × Node σ) (o : RepOp β)
+    (h : p.1.committed = p.2.committed) :
+    (repStep m p o).1.1.committed = (repStep m p o).1.2.committed ∧
+    (∀ r, (repStep m p o).2 = some r → r.1 = r.2) := by
+  cases o with
+  | block b =>
+    have := exec_congr m p.1 p.2 b h
+    refine ⟨this.1, ?_⟩
+    intro r hr
+    simp only [repStep, Option.some.injEq] at hr
+    rw [← hr]
+    exact this.2
+  | fork => exact ⟨rfl, by intro r hr; simp [repStep] at hr⟩
+  | discard₁ b => exact ⟨h, by intro r hr; simp [repStep] at hr⟩
+  | discard₂ b => exact ⟨h, by intro r hr; simp [repStep] at hr⟩
+
+/-- REPLICA THEOREM, for all histories: starting from equal committed state, after any sequence of blocks, forks and
+    discarded executions on either node (CheckTx, Simulate, queries, dropped cache contexts, rolled-back transactions)
+    the two nodes have equal committed state and reported equal results for EVERY block of the history -/
+theorem replicas_agree {σ β ρ : Type} (m : Machine σ β ρ) (ops : List (RepOp β)) (p : Node σ × Node σ)
+    (h : p.1.committed = p.2.committed) :
+    (repRun m p ops).1.1.committed = (repRun m p ops).1.2.committed ∧ ∀ r ∈ (repRun m p ops).2, r.1 = r.2 := by
+  induction ops generalizing p with
+  | nil => exact ⟨h, by intro r hr; simp [repRun] at hr⟩
+  | cons o rest ih =>
+    have hs := repStep_agree m p o h
+    have hr := ih (repStep m p o).1 hs.1
+    refine ⟨hr.1, ?_⟩
+    intro r hmem
+    simp only [repRun] at hmem
+    cases hopt : (repStep m p o).2 with
+    | none =>
+      rw [hopt] at hmem
+      exact hr.2 r hmem
+    | some x =>
+      rw [hopt] at hmem
+      rcases List.mem_cons.mp hmem with rfl | h'
+      · exact hs.2 r hopt
+      · exact hr.2 r h'
+
+/-- corollary in the shape of the harness scenario: fork, any discarded executions on node 1, then one block — equal results -/
+theorem discarded_then_block_agree {σ β ρ : Type} (m : Machine σ β ρ) (n : Node σ) (ds : List β) (b : β) :
+    ∀ r ∈ (repRun m (n, n) (RepOp.fork :: ds.map RepOp.discard₁ ++ [RepOp.block b])).2, r.1 = r.2 :=
+  (replicas_agree m _ (n, n) rfl).2
+
+/-- the hypothesis "step takes only (committed, block)" is what carries the theorem: with process-local memory that a
+    discarded execution can change (the memo of seed C14-4) a polluted node and a fresh fork disagree on the next block -/
+theorem memo_breaks_replicas :
+    ∃ (n : MemoNode) (h : Nat), (memoDiscard n h).committed = n.committed ∧
+      (memoExec (memoDiscard n h) h).2 ≠ (memoExec { committed := n.committed, memo := none } h).2 :=
+  ⟨{ committed := 5, memo := none }, 7, rfl, by decide⟩
+
+example : (repRun (⟨fun s b => (s + b, s * b)⟩ : Machine Nat Nat Nat) (⟨3⟩, ⟨3⟩)
+    [.discard₁ 9, .fork, .block 2, .discard₂ 4, .block 5]).2 = [(6, 6), (25, 25)] := by decide
+
 /-! ### non-vacuity -/
 
 example : validators [5, 3, 9] = [3, 5, 9] := sortAddrs_eq_of_sorted (by decide) (by decide)
